@@ -719,6 +719,7 @@ func TestVerifC02(t *testing.T) {
 	c02Strings(c, mc.Pick(c, 5, 6))
 	c02Intern(c)
 	c02Long(c)
+	c02Clones(c)
 	c02Files(c, mc.Pick(c, 2, 3))
 	if code := c.Finish(); code != 0 {
 		os.Exit(code)
